@@ -14,6 +14,8 @@ import Krp.Props.C08
 import Krp.Props.C01
 import Krp.Props.C04
 import Krp.Props.C12
+import Krp.Props.C14
+import Krp.Lemmas.Wiring
 import Krp.Lemmas.Calm
 import Krp.Lemmas.Cw20
 namespace Krp
@@ -914,5 +916,258 @@ theorem C09_stsei_unbond_closing_batch_tx_succeeds (s : Sys) (u : Addr) (amt : N
     refine ⟨_, hentry, ?_, hnow, rfl⟩
     show st'.reqS + amt = _; rw [sb.reqS]
   · rw [hs4]; show s3.stsei.supply + amt = _; rw [hs3]; exact sup2
+
+
+/-! ### the bSei unbond as a whole transaction (peg fee and reward mirror included) -/
+
+/-- the reward contract's balance mirror accepts a decrease of a holder who holds that much -/
+theorem reward_decrease_ok (r : RewardSt) (self : Addr) (dp : Res Addr) (bb : Denom → Nat) (tokA a : Addr)
+    (amt : Nat) (inv : r.Inv) (hb : amt ≤ r.hBal a) (ht : amt ≤ r.totalBalance) :
+    ∃ r', rewardExec r self (.ok tokA) dp bb tokA (.decrease a amt) = .ok (r', []) ∧ r'.Inv ∧
+      r'.hBal a = r.hBal a - amt ∧ r'.totalBalance = r.totalBalance - amt ∧ r'.hub = r.hub ∧
+      (∀ k, k ≠ a → r'.hBal k = r.hBal k) ∧ r'.owner = r.owner ∧ r'.newOwner = r.newOwner := by
+  have hx : rewardExec r self (.ok tokA) dp bb tokA (.decrease a amt) =
+      .ok ({ (r.setHolder a (r.hBal a - amt) r.globalIndex ((r.globalIndex - r.hIdx a) * r.hBal a + r.hPend a)) with
+              totalBalance := r.totalBalance - amt }, []) := by
+    simp only [rewardExec, RewardSt.accrual_ok r inv, bind, Except.bind, pure, Except.pure]
+    rw [if_neg (by simp), if_neg (by omega), if_neg (by omega)]
+  refine ⟨_, hx, C14_inv_step _ _ _ _ _ _ _ _ _ inv hx, ?_, rfl, rfl, ?_, rfl, rfl⟩
+  · simp [RewardSt.setHolder]
+  · intro k hk; simp [RewardSt.setHolder, upd, hk]
+
+theorem reward_increase_ok (r : RewardSt) (self : Addr) (dp : Res Addr) (bb : Denom → Nat) (tokA a : Addr)
+    (amt : Nat) (inv : r.Inv) :
+    ∃ r', rewardExec r self (.ok tokA) dp bb tokA (.increase a amt) = .ok (r', []) ∧ r'.Inv ∧
+      r'.hBal a = r.hBal a + amt ∧ r'.totalBalance = r.totalBalance + amt ∧ r'.hub = r.hub ∧
+      (∀ k, k ≠ a → r'.hBal k = r.hBal k) ∧ r'.owner = r.owner ∧ r'.newOwner = r.newOwner := by
+  have hx : rewardExec r self (.ok tokA) dp bb tokA (.increase a amt) =
+      .ok ({ (r.setHolder a (r.hBal a + amt) r.globalIndex ((r.globalIndex - r.hIdx a) * r.hBal a + r.hPend a)) with
+              totalBalance := r.totalBalance + amt }, []) := by
+    simp only [rewardExec, RewardSt.accrual_ok r inv, bind, Except.bind, pure, Except.pure]
+    rw [if_neg (by simp)]
+  refine ⟨_, hx, C14_inv_step _ _ _ _ _ _ _ _ _ inv hx, ?_, rfl, rfl, ?_, rfl, rfl⟩
+  · simp [RewardSt.setHolder]
+  · intro k hk; simp [RewardSt.setHolder, upd, hk]
+
+/-- **A bSei holder's unbond succeeds as a whole transaction** (epoch period not yet passed): token
+    transfer to the hub, the two reward-mirror updates, the hub's pricing with the peg fee, the
+    burn and its mirror update — from any state with the contracts wired to each other (E3), an
+    unpaused hub, a consistent bSei ledger mirrored by the reward contract, fee and threshold in
+    range (C20) and something delegated (or nothing booked). -/
+theorem C09_bsei_unbond_tx_succeeds (s : Sys) (u : Addr) (amt : Nat)
+    (w : Wired s) (hp : s.hub.isPaused = false) (hst : s.hub.stsei = some stseiA)
+    (wf : s.bsei.WF) (rinv : s.reward.Inv)
+    (hmu : s.reward.hBal u = s.bsei.bal u) (hmh : s.reward.hBal hubA = s.bsei.bal hubA)
+    (hmt : s.reward.totalBalance = s.bsei.supply)
+    (hpos : 0 < amt) (hbal : amt ≤ s.bsei.bal u) (hu : u ≠ hubA)
+    (hfee : s.hub.fee ≤ D) (hthr : s.hub.thr ≤ D)
+    (hd : s.delegationsOf hubA ≠ [] ∨ s.hub.bBond + s.hub.sBond = 0)
+    (hstale : s.hub.bBond + s.hub.sBond = 0 → s.hub.bRate < s.hub.thr → s.hub.bBond ≤ s.bsei.supply + s.hub.reqB)
+    (ht1 : s.hub.lastUnbondedTime ≤ s.chain.time)
+    (ht2 : ¬ s.chain.time - s.hub.lastUnbondedTime > s.hub.epoch) :
+    ∃ s', s.exec (.wasm u bseiA (.tok (.send hubA amt .unbond)) []) = (s', .ok ()) ∧
+      s'.bsei.supply + amt = s.bsei.supply ∧ s'.reward.totalBalance = s'.bsei.supply ∧
+      s.hub.waitB u s.hub.batchId ≤ s'.hub.waitB u s.hub.batchId ∧
+      s'.hub.waitB u s.hub.batchId ≤ s.hub.waitB u s.hub.batchId + amt := by
+  have hbt : s.hub.bsei = some bseiA := w.hubTok
+  -- 1. the token moves the tokens to the hub, tells the reward contract and notifies the hub
+  obtain ⟨t1, ht1'⟩ : ∃ t, s.bsei.transfer u hubA amt = .ok t := by
+    unfold Token.transfer Token.move
+    rw [if_neg (by omega), if_neg (by omega)]
+    exact ⟨_, rfl⟩
+  have st1 := Token.transfer_step s.bsei t1 wf u hubA amt ht1'
+  have hub1 : t1.hub = hubA := by rw [st1.1.hub]; exact w.tokHub
+  have sup1 : t1.supply = s.bsei.supply := by have := st1.1.supply; omega
+  have balh : t1.bal hubA = s.bsei.bal hubA + amt := by
+    unfold Token.transfer Token.move at ht1'
+    rw [if_neg (by omega), if_neg (by omega)] at ht1'
+    injection ht1' with ht1'; subst ht1'
+    simp [Token.setBal, upd, Ne.symm hu]
+  obtain ⟨s1, hs1⟩ : ∃ x : Sys, x = { s with bsei := t1 } := ⟨_, rfl⟩
+  have hra : s.bseiRewardAddr = .ok rewardA := w.rewardAddr
+  have H1 : s.handle (.wasm u bseiA (.tok (.send hubA amt .unbond)) []) =
+      .ok (s1, [Msg.wasm bseiA rewardA (.reward (.decrease u amt)) [],
+                Msg.wasm bseiA rewardA (.reward (.increase hubA amt)) [],
+                Msg.wasm bseiA hubA (.hub (.receive u amt .unbond)) []]) := by
+    simp only [Sys.handle, Sys.moveFunds, bind, Except.bind, pure, Except.pure]
+    rw [if_neg (by decide), if_pos trivial]
+    have : ({ s with } : Sys).bseiRewardAddr = .ok rewardA := hra
+    simp only [bseiExec, bind, Except.bind, pure, Except.pure, hra, ht1', receiveMsg, if_true, hs1]
+  -- 2. the reward contract lowers the sender's mirrored balance
+  have tok1 : s1.hubTokenOf s1.reward.hub = .ok bseiA := by
+    rw [hs1]; exact w.tokenOf
+  obtain ⟨r2, hr2, inv2, hb2, htot2, hh2, hoth2, ho2, hn2⟩ := reward_decrease_ok s1.reward rewardA
+    (s1.hubDispatcherOf s1.reward.hub) (s1.chain.bank rewardA) bseiA u amt (by rw [hs1]; exact rinv)
+    (by rw [hs1]; show amt ≤ s.reward.hBal u; omega) (by rw [hs1]; show amt ≤ s.reward.totalBalance; rw [hmt]; exact Nat.le_trans hbal (Token.bal_le_supply s.bsei wf u))
+  obtain ⟨s2, hs2⟩ : ∃ x : Sys, x = { s1 with reward := r2 } := ⟨_, rfl⟩
+  have H2 : s1.handle (Msg.wasm bseiA rewardA (.reward (.decrease u amt)) []) = .ok (s2, []) := by
+    simp only [Sys.handle, Sys.moveFunds, bind, Except.bind, pure, Except.pure]
+    rw [if_neg (by decide), if_neg (by decide), if_neg (by decide), if_pos trivial]
+    simp only [tok1, hr2, hs2]
+  -- 3. … and raises the hub's
+  have tok2 : s2.hubTokenOf s2.reward.hub = .ok bseiA := by
+    rw [hs2]; show s1.hubTokenOf r2.hub = _; rw [hh2]; exact tok1
+  obtain ⟨r3, hr3, inv3, hb3, htot3, hh3, hoth3, ho3, hn3⟩ := reward_increase_ok s2.reward rewardA
+    (s2.hubDispatcherOf s2.reward.hub) (s2.chain.bank rewardA) bseiA hubA amt (by rw [hs2]; exact inv2)
+  obtain ⟨s3, hs3⟩ : ∃ x : Sys, x = { s2 with reward := r3 } := ⟨_, rfl⟩
+  have H3 : s2.handle (Msg.wasm bseiA rewardA (.reward (.increase hubA amt)) []) = .ok (s3, []) := by
+    simp only [Sys.handle, Sys.moveFunds, bind, Except.bind, pure, Except.pure]
+    rw [if_neg (by decide), if_neg (by decide), if_neg (by decide), if_pos trivial]
+    simp only [tok2, hr3, hs3]
+  -- 4. the hub prices the request
+  have hubeq : s3.hub = s.hub := by rw [hs3, hs2, hs1]
+  have hb3q : s3.hub.bSupplyQ s3.hubEnv = .ok s.bsei.supply := by
+    rw [hubeq]; simp only [HubSt.bSupplyQ, hbt]
+    show s3.supplyOf bseiA = _
+    rw [hs3, hs2, hs1]; unfold Sys.supplyOf; simp [sup1]
+  have hs3q : s3.hub.sSupplyQ s3.hubEnv = .ok s3.stsei.supply := by
+    rw [hubeq]; simp only [HubSt.sSupplyQ, hst]; rfl
+  obtain ⟨st, hact⟩ := actualState_live s3.hub s3.hubEnv _ _ hb3q hs3q
+  have spec := actualState_spec s3.hub st s3.hubEnv hact
+  have sb := spec.1
+  have timeq : s3.hubEnv.now = s.chain.time := by rw [hs3, hs2, hs1]; rfl
+  have hdeq : s3.hubEnv.delegations = s.delegationsOf hubA := by rw [hs3, hs2, hs1]; rfl
+  have hbsq' : st.bSupplyQ s3.hubEnv = .ok s.bsei.supply := by
+    simp only [HubSt.bSupplyQ, sb.bsei]; rw [hubeq] ; simp only [hbt]
+    have := hb3q; rw [hubeq] at this; simp only [HubSt.bSupplyQ, hbt] at this; exact this
+  -- the peg fee cannot fail
+  have hsup : amt ≤ s.bsei.supply := Nat.le_trans hbal (Token.bal_le_supply s.bsei wf u)
+  obtain ⟨wfee, hwf, hwle⟩ : ∃ x, st.pegFeeOnBurn s.bsei.supply amt = .ok x ∧ x ≤ amt := by
+    unfold HubSt.pegFeeOnBurn
+    by_cases hlt : st.bRate < st.thr
+    · rw [if_pos hlt]
+      have hgap : ¬ (s.bsei.supply + st.reqB < st.bBond) := by
+        rcases spec.2 with ⟨hz, he⟩ | ⟨bs, ss, _, hnz, hbq, _, hbR, _, _⟩
+        · subst he
+          rcases hz with hz | hz
+          · rcases hd with hd' | hd'
+            · rw [hdeq] at hz; exact absurd hz hd'
+            · rw [hubeq] at hlt ⊢
+              have := hstale hd' hlt; omega
+          · rw [hubeq] at hz hlt ⊢
+            have := hstale hz hlt; omega
+        · have ebs : bs = s.bsei.supply := by
+            rw [hb3q] at hbq; injection hbq with h; exact h.symm
+          rw [hbR, ebs] at hlt
+          rw [sb.reqB]
+          unfold rateOf at hlt
+          by_cases hc : st.bBond = 0 ∨ s.bsei.supply + s3.hub.reqB = 0
+          · rw [if_pos hc] at hlt
+            have : st.thr ≤ D := by rw [sb.thr, hubeq]; exact hthr
+            omega
+          · rw [if_neg hc] at hlt
+            intro hgt
+            have hcl : 0 < s.bsei.supply + s3.hub.reqB := by omega
+            have : D ≤ fromRatio st.bBond (s.bsei.supply + s3.hub.reqB) := by
+              unfold fromRatio
+              apply (Nat.le_div_iff_mul_le hcl).mpr
+              rw [Nat.mul_comm]
+              exact Nat.mul_le_mul_right D (by omega)
+            have : st.thr ≤ D := by rw [sb.thr, hubeq]; exact hthr
+            omega
+      rw [if_neg hgap]
+      have hm : mulDec amt st.fee ≤ amt := mulDec_le_self amt st.fee (by rw [sb.fee, hubeq]; exact hfee)
+      have hmin : min (mulDec amt st.fee) (s.bsei.supply + st.reqB - st.bBond) ≤ amt := Nat.le_trans (Nat.min_le_left _ _) hm
+      rw [if_neg (by omega)]
+      exact ⟨_, rfl, by omega⟩
+    · rw [if_neg hlt]; exact ⟨amt, rfl, Nat.le_refl _⟩
+  have hun : s3.hub.unbondB s3.hubEnv amt u =
+      .ok (st.afterUnbondB u s.bsei.supply amt wfee, [HubSt.tokMsg hubA bseiA (.burn amt)]) := by
+    unfold HubSt.unbondB
+    simp only [hact, hbsq', hwf]
+    rw [if_neg (by omega), if_neg (by rw [sb.lastUnb, hubeq, timeq]; omega)]
+    simp only [hubeq, hbt]
+    rw [if_neg (by rw [sb.lastUnb, sb.epoch, hubeq, timeq]; exact ht2)]
+    rfl
+  obtain ⟨s4, hs4⟩ : ∃ x : Sys, x = { s3 with hub := st.afterUnbondB u s.bsei.supply amt wfee } := ⟨_, rfl⟩
+  have H4 : s3.handle (Msg.wasm bseiA hubA (.hub (.receive u amt .unbond)) []) =
+      .ok (s4, [HubSt.tokMsg hubA bseiA (.burn amt)]) := by
+    simp only [Sys.handle, Sys.moveFunds, bind, Except.bind, pure, Except.pure]
+    rw [if_pos trivial]
+    simp only [hubExec, hubeq, hp, Bool.false_eq_true, if_false, hbt, hst, bind, Except.bind, pure, Except.pure]
+    rw [if_pos trivial, ← hubeq, hun, hs4]
+  -- 5. the hub burns what it received
+  have bsei4 : s4.bsei = t1 := by rw [hs4, hs3, hs2, hs1]
+  have wf1 : t1.WF := st1.1.wf
+  obtain ⟨t2, hbn⟩ : ∃ t, t1.burn hubA amt = .ok t := by
+    unfold Token.burn
+    have := Token.bal_le_supply t1 wf1 hubA
+    rw [if_neg (by omega), if_neg (by omega), if_neg (by omega)]
+    exact ⟨_, rfl⟩
+  have sup2 : t2.supply + amt = s.bsei.supply := by
+    unfold Token.burn at hbn
+    have := Token.bal_le_supply t1 wf1 hubA
+    rw [if_neg (by omega), if_neg (by omega), if_neg (by omega)] at hbn
+    injection hbn with hbn; subst hbn
+    simp only []; omega
+  obtain ⟨s5, hs5⟩ : ∃ x : Sys, x = { s4 with bsei := t2 } := ⟨_, rfl⟩
+  have sc34 : s4.bseiRewardAddr = .ok rewardA := by
+    have w4 : Wired s4 := by
+      have fr := unbondB_frame s3.hub _ s3.hubEnv amt u _ hun
+      refine ⟨?_, ?_, ?_, ?_, ?_, ?_, ?_, ?_, ?_, ?_, ?_⟩
+      · rw [bsei4]; exact hub1
+      · rw [hs4]; show (st.afterUnbondB u s.bsei.supply amt wfee).dispatcher = _; rw [fr.2.dispatcher, hubeq]; exact w.hubDisp
+      · rw [hs4, hs3, hs2, hs1]; exact w.dispRw
+      · rw [hs4, hs3]; show r3.hub = _; rw [hh3, hs2]; show r2.hub = _; rw [hh2, hs1]; exact w.rwHub
+      · rw [hs4]; show (st.afterUnbondB u s.bsei.supply amt wfee).bsei = _; rw [fr.2.bsei, hubeq]; exact w.hubTok
+      · rw [hs4]; show External (st.afterUnbondB u s.bsei.supply amt wfee).creator; rw [fr.2.creator, hubeq]; exact w.hubOwner
+      · rw [hs4]; show External (st.afterUnbondB u s.bsei.supply amt wfee).newOwner; rw [fr.2.newOwner, hubeq]; exact w.hubNominee
+      · rw [hs4, hs3, hs2, hs1]; exact w.dispOwner
+      · rw [hs4, hs3, hs2, hs1]; exact w.dispNominee
+      · rw [hs4, hs3]; show External r3.owner
+        rw [ho3, hs2]; show External r2.owner
+        rw [ho2, hs1]; exact w.rwOwner
+      · rw [hs4, hs3]; show External r3.newOwner
+        rw [hn3, hs2]; show External r2.newOwner
+        rw [hn2, hs1]; exact w.rwNominee
+    exact w4.rewardAddr
+  have H5 : s4.handle (HubSt.tokMsg hubA bseiA (.burn amt)) =
+      .ok (s5, [Msg.wasm bseiA rewardA (.reward (.decrease hubA amt)) []]) := by
+    simp only [HubSt.tokMsg, Sys.handle, Sys.moveFunds, bind, Except.bind, pure, Except.pure]
+    rw [if_neg (by decide), if_pos trivial]
+    simp only [bsei4, bseiExec, bind, Except.bind, pure, Except.pure, throw, throwThe, MonadExceptOf.throw, hub1, sc34]
+    rw [if_neg (by simp)]
+    simp only [hbn, hs5]
+  -- 6. … and the reward contract lowers the hub's mirrored balance again
+  have rw5 : s5.reward = r3 := by rw [hs5, hs4, hs3]
+  have tok5 : s5.hubTokenOf s5.reward.hub = .ok bseiA := by
+    rw [rw5, hh3]
+    unfold Sys.hubTokenOf
+    have : s2.reward.hub = hubA := by rw [hs2]; show r2.hub = _; rw [hh2, hs1]; exact w.rwHub
+    rw [this]; simp only [if_true]
+    have fr := unbondB_frame s3.hub _ s3.hubEnv amt u _ hun
+    have : s5.hub.bsei = some bseiA := by
+      rw [hs5, hs4]; show (st.afterUnbondB u s.bsei.supply amt wfee).bsei = _; rw [fr.2.bsei, hubeq]; exact hbt
+    rw [this]
+  have hb3h : r3.hBal hubA = s.bsei.bal hubA + amt := by
+    rw [hb3, hs2]; show r2.hBal hubA + amt = _
+    rw [hoth2 hubA (Ne.symm hu), hs1]; show s.reward.hBal hubA + amt = _; rw [hmh]
+  have htot3' : r3.totalBalance = s.bsei.supply := by
+    rw [htot3, hs2]; show r2.totalBalance + amt = _
+    rw [htot2, hs1]; show s.reward.totalBalance - amt + amt = _; rw [hmt]; omega
+  obtain ⟨r6, hr6, inv6, hb6, htot6, hh6, hoth6, _, _⟩ := reward_decrease_ok s5.reward rewardA
+    (s5.hubDispatcherOf s5.reward.hub) (s5.chain.bank rewardA) bseiA hubA amt (by rw [rw5]; exact inv3)
+    (by rw [rw5, hb3h]; omega) (by rw [rw5, htot3']; exact hsup)
+  obtain ⟨s6, hs6⟩ : ∃ x : Sys, x = { s5 with reward := r6 } := ⟨_, rfl⟩
+  have H6 : s5.handle (Msg.wasm bseiA rewardA (.reward (.decrease hubA amt)) []) = .ok (s6, []) := by
+    simp only [Sys.handle, Sys.moveFunds, bind, Except.bind, pure, Except.pure]
+    rw [if_neg (by decide), if_neg (by decide), if_neg (by decide), if_pos trivial]
+    simp only [tok5, hr6, hs6]
+  refine ⟨s6, ?_, ?_, ?_, ?_, ?_⟩
+  · unfold Sys.exec
+    simp only [Sys.run, H1, H2, H3, H4, H5, H6, List.nil_append, List.append_nil, List.cons_append, List.singleton_append]
+  · rw [hs6, hs5]; exact sup2
+  · rw [hs6]; show r6.totalBalance = s5.bsei.supply
+    rw [htot6, rw5, htot3', hs5]; show s.bsei.supply - amt = t2.supply; omega
+  · rw [hs6, hs5, hs4]
+    show s.hub.waitB u s.hub.batchId ≤ (st.afterUnbondB u s.bsei.supply amt wfee).waitB u s.hub.batchId
+    have : (st.afterUnbondB u s.bsei.supply amt wfee).waitB u s.hub.batchId = st.waitB u st.batchId + wfee := by
+      rw [← hubeq, ← sb.batchId]; simp [HubSt.afterUnbondB, HubSt.addWait]
+    rw [this, sb.waitB, sb.batchId, hubeq]; omega
+  · rw [hs6, hs5, hs4]
+    show (st.afterUnbondB u s.bsei.supply amt wfee).waitB u s.hub.batchId ≤ _
+    have : (st.afterUnbondB u s.bsei.supply amt wfee).waitB u s.hub.batchId = st.waitB u st.batchId + wfee := by
+      rw [← hubeq, ← sb.batchId]; simp [HubSt.afterUnbondB, HubSt.addWait]
+    rw [this, sb.waitB, sb.batchId, hubeq]; omega
 
 end Krp
